@@ -1,6 +1,7 @@
 """Configuration of ./check C01 (see pylib/props.py)."""
 CFG = dict(
-        coq=["props/C01.vo"],
+        coq=["props/C01.vo", "props/Compose4.vo"],
+        compose=['Compose_pool_ingest', 'Compose_pool_arrival', 'Compose_pool_blocks', 'Compose_pool_order'],
         tie=["gen/Tie_C01.vo", "gen/Tie_Code_Slices.vo", "gen/Tie_Code_KeyIndices.vo", "gen/Tie_Code_StrListEncode.vo", "gen/Tie_Code_Cols.vo"],
         model_vo=["model/Sorter.vo", "model/SorterSpec.vo", "model/Ingest.vo", "model/IngestSpec.vo"],
         extract="Ex_C01",
